@@ -78,7 +78,8 @@ impl V {
 fn val(r: &mut Rng) -> V {
     match r.below(9) {
         0 => V::I(r.below(5) as i64 - 2),
-        1 => V::F(1.5),
+        // whole floats too: `2.0` is a float, not an integer, whatever its value
+        1 => V::F(*r.pick(&[1.5, 2.0, 0.0, 7.0, -3.0])),
         2 => V::S(r.pick(&["s", "", "é<", "x y"]).to_string()),
         3 => V::B(r.bool()),
         4 => V::N,
@@ -93,7 +94,7 @@ fn val(r: &mut Rng) -> V {
 fn default_val(r: &mut Rng) -> V {
     loop {
         let v = val(r);
-        if !matches!(v, V::I(i) if i < 0) {
+        if !matches!(v, V::I(i) if i < 0) && !matches!(v, V::F(f) if f < 0.0) {
             return v;
         }
     }
